@@ -11,6 +11,15 @@ NOTE_S = ("Trusted base: the vrewrite source rewriter and the vz shim packages (
 NOTE_E = ("Engine E runs the unmodified mangos code under the real Go scheduler and real OS transports: inputs, configurations and operation lists are enumerated exhaustively over the stated finite sets, goroutine schedules and kernel segmentation are not controlled; hang verdicts use generous watchdogs; the harness codecs/reference decoders are trusted.")
 
 claimed = {
+ "C13": ("stateless model checking of the rewritten real core: exhaustive connect / hook-close / peer-drop / app-close histories on listener and dialer side with a recording protocol decorator, id allocator started next to the 31-bit wrap, plus schedule exploration of attach vs drop",
+         "A recording decorator around the real xpub / xpair protocols logs AddPipe/RemovePipe, the pipe event hook logs Attaching/Attached/Detached and (as an explored choice) closes the pipe during Attaching or Attached; every history up to the stated depth is executed on the real core; per pipe the event grammar, AddPipe/RemovePipe pairing, id range/uniqueness until the Detached callback returned, and Address/Dialer/Listener/RemoteAddr are checked, and every later connection must still reach Attaching.",
+         "DESIGN.md §6 C13"),
+ "C14": ("stateless model checking of the rewritten real core under virtual time: exhaustive dial-outcome / loss / close histories x (ReconnectTime, MaxReconnectTime, DialAsynch) grid with the jitter draw as an explored choice; Close during an in-flight Dial over all schedules",
+         "A scripted virtual dialer returns refused / handshake error / ok / ok-then-rejected; every outcome history up to the stated depth for 7 option settings and every jitter value in {0,0.5,0.999} runs on the real dialer with a virtual clock; each attempt's time stamp must equal the previous failure/loss instant plus a delay the back-off model allows (never below ReconnectTime, capped by MaxReconnectTime, reset after attach), a synchronous first failure is not retried, traffic reaches the new connection and no attempt starts after Close.",
+         "DESIGN.md §6 C14"),
+ "C18": ("stateless model checking of the rewritten real code under virtual time: exhaustive enumeration of socket kind (24) x deadline {50ms,0,2s} x mode (deadline, best effort, fail-no-peers) x queue/peer state with exact virtual-time oracles",
+         "For each of the 24 socket constructors (and contexts where offered) a blocked Recv/Send with deadline d returns the timeout error after exactly d of virtual time (checked 1 ns before and at d), a call that can complete at once returns at the call instant without error, deadline 0 is still blocked after an hour, best-effort sends return at the call instant and never duplicate, fail-no-peers calls fail at the call instant and at the instant the last peer leaves.",
+         "DESIGN.md §6 C18"),
  "C08": ("stateless model checking of the rewritten real code: deviation-bounded exploration of all schedules of concurrent senders in small BUS/STAR topologies over the rewritten inproc transport",
          "BUS full meshes of 2-4, a BUS chain (no forwarding by cooked sockets), a raw BUS forwarder with a loop-back device, STAR hubs with 2-3 leaves, a two-level STAR tree and a raw STAR hub: every member sends concurrently, all schedules within the deviation bound are executed on the real code, then every member drains; each must have received exactly the messages of the others that the topology promises, once, unchanged, never its own.",
          "DESIGN.md §6 C08"),
